@@ -2,6 +2,7 @@
 import importlib
 
 GROUPS = {
+    "C08": "budget",
     "C06": "timelimiter",
     "C19": "chaos",
     "C17": "fallback",
